@@ -201,10 +201,14 @@ func (x *extState) hook(c *checker, s *server, key instKey, e *sim.Ev) {
 		if op == nil {
 			op = &restoreOp{key: key}
 			x.pendingRestore[key] = op
+			x.restores = append(x.restores, op)
 		}
 		op.entered, op.enterSeq = true, e.Seq
 		op.latest, op.committed, op.lastIndex, op.metaIndex = e.A, e.B, e.C, e.D
 		c.cov("userrestore-entered")
+		if op.latest != op.committed {
+			c.cov("userrestore-entered-during-config-change")
+		}
 	case "h.userrestore.done":
 		burned := e.A
 		s.burned = burned
@@ -338,6 +342,32 @@ func (x *extState) restoreReturned(c *checker, cl *call, e *sim.Ev) {
 }
 
 func (x *extState) finishRestore(c *checker) {
+	// a call is aborted by a restore only if a restore that was not refused ran on that
+	// incarnation while the call was in flight: a refused restore leaves everything alone.
+	// (The restore hook fires on entry, before the checks that refuse it; the calls are
+	// aborted after those checks, and before the snapshot is written, so a restore that
+	// fails later on a storage error still aborts them legitimately.)
+	for _, cl := range c.callList {
+		if !cl.returned || cl.dead || cl.err != errAborted {
+			continue
+		}
+		c.cov("aborted-by-restore-call")
+		ok, refused := false, false
+		for _, op := range x.restores {
+			if op.key == cl.inst && op.entered && op.enterSeq > cl.invSeq && op.enterSeq < cl.retSeq {
+				if op.latest == op.committed {
+					ok = true
+				} else {
+					refused = true
+				}
+			}
+		}
+		if !ok && refused {
+			c.violate("C20", "aborted-by-refused-restore", cl.retSeq, "%s %q on %s failed with ErrAbortedByRestore, but the only user restore on that server while the call was in flight had to be refused (a membership change was uncommitted)", cl.op, cl.payload, cl.inst)
+		} else if !ok {
+			c.violate("C20", "aborted-without-restore", cl.retSeq, "%s %q on %s failed with ErrAbortedByRestore but no user restore ran on that server while the call was in flight", cl.op, cl.payload, cl.inst)
+		}
+	}
 	// in-flight calls that failed with ErrAbortedByRestore leave no trace in the final state
 	for _, cl := range c.callList {
 		if cl.op == "apply" && cl.returned && !cl.dead && cl.err == errAborted {
